@@ -44,6 +44,7 @@ def run(ctx: Ctx) -> None:
                                      (METRICS, "Infidelity.evaluate"), (METRICS, "TraceDistance.evaluate")])
     rule_rep_dispatch(ctx)
     rule_metric_value(ctx)
+    rule_pauli_from_bits(ctx)
     from .c05 import rule_fid_shape, rule_counter_condition
     rule_fid_shape(ctx)          # the stabilizer side of the cross-representation clause: Infidelity delegates to sfm.fidelity / inner_product
     rule_counter_condition(ctx)
@@ -209,6 +210,76 @@ def rule_metric_value(ctx: Ctx) -> None:
     ctx.floor("metric.value", 5)
 
 
+def rule_pauli_from_bits(ctx: Ctx) -> None:
+    """conv.pauli-from-bits: when the stabilizer -> density-matrix conversion builds a generator's matrix from its symplectic row with a
+    per-qubit loop (`for x, z in zip(x_row, z_row): factor = ...`), the factor for the four bit pairs is I, X, Z and the *Hermitian* Y
+    (= i X Z = -i Z X).  The loop body is interpreted (gqsa/minterp.py, 2 x 2 complex matrices) for the four pairs; Z X with a factor i is
+    -Y, and a generator with an odd number of Y's then projects onto the orthogonal state."""
+    from .. import minterp
+    repo = ctx.repo
+    m = repo.module("graphiq/backends/state_rep_conversion.py")
+    I2, X, Y, Z = minterp.Mat([[1, 0], [0, 1]]), minterp.Mat([[0, 1], [1, 0]]), minterp.Mat([[0, -1j], [1j, 0]]), minterp.Mat([[1, 0], [0, -1]])
+    want = {(0, 0): ("I", I2), (1, 0): ("X", X), (0, 1): ("Z", Z), (1, 1): ("Y", Y)}
+    n = 0
+    for fn in [f for f in m.tree.body if isinstance(f, ast.FunctionDef)]:
+        for lp in [l for l in ast.walk(fn) if isinstance(l, ast.For) and isinstance(l.target, ast.Tuple) and len(l.target.elts) == 2
+                   and isinstance(l.iter, ast.Call) and call_name(l.iter) == "zip" and any(call_name(c) in ("np.kron", "kron") for c in calls_in(l))]:
+            xs, zs = norm(l.target.elts[0]) if False else None, None
+            names = [norm(e) for e in lp.target.elts]
+            args = [norm(a) for a in lp.iter.args]
+            if not (any("x" in a for a in args) and any("z" in a for a in args)):
+                continue
+            xi = 0 if "x" in args[0] else 1
+            xn, zn = names[xi], names[1 - xi]
+            kron = [c for c in calls_in(lp) if call_name(c) in ("np.kron", "kron")][0]
+            fac = kron.args[1] if len(kron.args) == 2 else None
+            if not isinstance(fac, ast.Name):
+                raise AnalysisError(f"{fn.name}: the per-qubit factor handed to kron is not a local name")
+            n += 1
+            ctx.touch(m, fn)
+            pre = {}
+            for a in fn.body:
+                if isinstance(a, ast.Assign) and len(a.targets) == 1 and isinstance(a.targets[0], ast.Name) and a.lineno < lp.lineno:
+                    pre[a.targets[0].id] = a.value
+
+            def oracle(c, it):
+                cn = call_name(c) or ""
+                if cn in ("np.eye", "np.identity") and c.args and isinstance(c.args[0], ast.Constant) and c.args[0].value == 2:
+                    return I2
+                tail = cn.split(".")[-1]
+                if tail in ("sigmax", "sigmay", "sigmaz", "identity") and not c.args:
+                    return {"sigmax": X, "sigmay": Y, "sigmaz": Z, "identity": I2}[tail]
+                if cn in ("np.kron", "kron"):
+                    return None
+                return NotImplemented
+            wrong = []
+            for (xv, zv), (nm, mat) in want.items():
+                env = {xn: xv, zn: zv}
+                it = minterp.Interp(env, oracle)
+                try:
+                    for k_, v_ in pre.items():
+                        try:
+                            env[k_] = it.ev(v_)
+                        except minterp.Unmodelled:
+                            pass
+                    it.run([st for st in lp.body if not any(x_ is kron for x_ in ast.walk(st))])
+                except (minterp.Unmodelled, minterp.ModelError) as e:
+                    raise AnalysisError(f"{fn.name}: per-qubit Pauli factor uses a construct the matrix model does not cover: {e}")
+                got = env.get(fac.id)
+                if not isinstance(got, minterp.Mat):
+                    raise AnalysisError(f"{fn.name}: the per-qubit factor did not evaluate to a matrix")
+                if not got.close(mat):
+                    wrong.append(nm + (" (it is -" + nm + ")" if got.close(-mat) else ""))
+            if wrong:
+                ctx.fail("conv.pauli-from-bits", m, lp,
+                         f"{fn.name} builds the per-qubit factor for {', '.join(wrong)} wrongly: the Hermitian Y is i X Z = -i Z X, and a generator with an odd number of Y's "
+                         f"otherwise converts to the projector on the orthogonal state (|+i> is converted to |-i>)", func=fn.name,
+                         construct=f"{fn.name}: per-qubit Pauli factor wrong for {wrong[0][:1]}")
+            else:
+                ctx.ok("conv.pauli-from-bits", m, lp, what=f"{fn.name}: factors I, X, Z, Y for the four bit pairs")
+    ctx.ok_abstract("conv.pauli-from-bits", f"{n} per-qubit Pauli constructions from symplectic bits")
+
+
 def rule_distance_whole_state(ctx: Ctx) -> None:
     """dist.whole-state: the trace distance is not linear in a mixture — T(t, sum_i p_i rho_i) <= sum_i p_i T(t, rho_i), with equality only
     in special cases — so TraceDistance.evaluate has to hand dmf.trace_distance the density matrix of the *whole* state.  A weighted sum
@@ -239,7 +310,21 @@ def rule_distance_whole_state(ctx: Ctx) -> None:
                      construct="TraceDistance.evaluate: per-branch trace distance")
 
 
+def _edit_add_pauli_helper(src: str) -> str:
+    """a helper that builds a generator's matrix from its symplectic row, with Y written as i * Z @ X (= -Y)"""
+    return src + ("\n\ndef _pauli_from_symplectic(x_row, z_row):\n"
+                  "    single_qubit = [np.eye(2), dmf.sigmax(), dmf.sigmaz()]\n"
+                  "    pauli = 1\n"
+                  "    for x, z in zip(x_row, z_row):\n"
+                  "        factor = single_qubit[2 * int(z)] @ single_qubit[int(x)]\n"
+                  "        if x and z:\n"
+                  "            factor = 1j * factor\n"
+                  "        pauli = np.kron(pauli, factor)\n"
+                  "    return pauli\n")
+
+
 KNOCKOUTS = [
+    Knockout("pauli-from-bits-y-sign", "graphiq/backends/state_rep_conversion.py", _edit_add_pauli_helper, "conv.pauli-from-bits", "per-qubit Pauli factor"),
     Knockout("fidelity-commuting-shortcut-pairs-sorted-spectra", DMF, sub_once("    else:\n        # if both are mixed, use the definition\n", "    elif np.allclose(rho @ sigma, sigma @ rho):\n        p_vals, _ = eigh(rho)\n        q_vals, _ = eigh(sigma)\n        return np.sum(np.sqrt(np.maximum(p_vals, 0) * np.maximum(q_vals, 0))) ** 2\n    else:\n        # if both are mixed, use the definition\n"), "num.spectra-paired", "paired by position"),
     Knockout("branches-selected-not-weighted-by-fidelity", "graphiq/metrics.py", sub_once("[p_i * sfm.fidelity(tableau, t_i) for p_i, t_i in rep_data.mixture]", "[p_i for p_i, t_i in rep_data.mixture if t_i == tableau]"), "weight.fidelity", "branch contribution"),
     Knockout("infidelity-returns-fidelity", "graphiq/metrics.py", sub_once("            self.log.append(1 - fid)\n\n        return 1 - fid", "            self.log.append(1 - fid)\n\n        return fid"), "metric.value", "returns / logs"),
